@@ -1156,6 +1156,26 @@ func (e *SpecEnv) callExpr(v *ast.CallExpr) Val {
 				return r
 			}
 			return Scalar{e.c.freshConst(e.s, "nocall", SBool), SBool, types.Typ[types.Bool]}
+		case "aftercall":
+			// aftercall("callee", k, e): e evaluated in the heap as the k-th (0-based) direct call of callee left it
+			// (unconstrained if there was no such call on this path)
+			name, _ := strconv.Unquote(v.Args[0].(*ast.BasicLit).Value)
+			lit, ok := v.Args[1].(*ast.BasicLit)
+			if !ok || len(v.Args) != 3 {
+				specFail("aftercall(\"callee\", k, expr): call index must be a literal")
+			}
+			k, _ := strconv.Atoi(lit.Value)
+			if !e.c.afterCallNames[name] {
+				specFail("aftercall: %s is not recorded (internal: contract text scan)", name)
+			}
+			hs := e.s.callHeaps[name]
+			if k < 0 || k >= len(hs) {
+				return Scalar{e.c.freshConst(e.s, "nocall", e.c.ar.idxSort()), e.c.ar.idxSort(), types.Typ[types.Int]}
+			}
+			n := e.sub()
+			n.heap = hs[k]
+			n.useSrc = false
+			return n.eval(v.Args[2])
 		case "lastarg", "callarg":
 			// lastarg("callee", i): argument i (receiver = 0) of the most recent direct call of callee on this path
 			// callarg("callee", k, i): argument i of the k-th (0-based) direct call
